@@ -12,12 +12,12 @@ CONSTANTS
   WakeAfterPush = TRUE
   Overflow = FALSE
   Hosts <- BothHosts
-  Muts = {"none","repaired"}
+  Muts = {"none"}
   Ops = {"o1"}
   Timers = {}
   Jobs = {"j1"}
   Owner <- OwnQO
   AnyTurn = TRUE
 SPECIFICATION XFairSpec
-INVARIANTS XTypeOK PendingBound TypeOK RealSafe RepBoth
-PROPERTIES CompletesRepaired
+INVARIANTS XTypeOK PendingBound TypeOK RealSafe
+PROPERTIES Completes OpSeen
